@@ -178,11 +178,63 @@ def operation_node(op: dict) -> dict:
     return node
 
 
+ERR = {"description": "error", "content": {"application/json": {"schema": {"$ref": "#/components/schemas/R"}}}}
+SHARED = {
+    "responses": {"Ok": {"description": "ok", "content": {"application/json": {"schema": {"$ref": "#/components/schemas/R"}}}}, "NotFound": {"description": "missing"}},
+    "parameters": {"PageSize": {"name": "page_size", "in": "query", "required": False, "schema": {"type": "integer"}}},
+    "requestBodies": {"ThingBody": {"required": True, "content": {"application/json": {"schema": {"$ref": "#/components/schemas/M1"}}}}},
+}
+
+
+def decorate(node: dict, item: dict, op: dict, deco: str) -> None:
+    """One unusual-but-valid construct added to an operation (names = Gen_Surface!Decos).  `item` is the path item."""
+    ok = node["responses"]["200"]
+    if deco == "resp_default_only":
+        node["responses"] = {"default": ok}
+    elif deco == "resp_wild_upper":
+        node["responses"].update({"4XX": copy.deepcopy(ERR), "5XX": {"description": "server error"}})
+    elif deco == "resp_wild_lower":
+        node["responses"].update({"4xx": copy.deepcopy(ERR), "5xx": {"description": "server error"}})
+    elif deco == "resp_2XX_primary":
+        node["responses"] = {"2XX": ok, "404": {"description": "missing"}}
+    elif deco == "resp_multi_status":
+        node["responses"].update({"201": copy.deepcopy(ok), "404": copy.deepcopy(ERR), "500": {"description": "boom"}})
+    elif deco == "resp_no_content":
+        node["responses"] = {"204": {"description": "nothing"}}
+    elif deco == "resp_desc_only":
+        node["responses"] = {"200": {"description": "ok, no content declared"}}
+    elif deco == "resp_ref":
+        node["responses"] = {"200": {"$ref": "#/components/responses/Ok"}, "404": {"$ref": "#/components/responses/NotFound"}}
+    elif deco == "resp_default_plus":
+        node["responses"]["default"] = copy.deepcopy(ERR)
+    elif deco == "param_ref":
+        node.setdefault("parameters", []).append({"$ref": "#/components/parameters/PageSize"})
+    elif deco == "body_ref":
+        if op["method"].upper() in ("POST", "PUT", "PATCH") and "requestBody" not in node:
+            node["requestBody"] = {"$ref": "#/components/requestBodies/ThingBody"}
+    elif deco == "pathlevel_keys":
+        item.setdefault("summary", "things")
+        item.setdefault("description", "a path item with its own keys next to the methods")
+        item.setdefault("servers", [{"url": "https://alt.srv.test"}])
+        item.setdefault("parameters", [{"name": "trace_id", "in": "query", "required": False, "schema": {"type": "string"}}])
+    elif deco == "ext_deprecated":
+        node.update({"deprecated": True, "x-internal-id": "abc", "x-codegen": {"group": "g", "weight": 3}, "summary": "s", "description": "d", "externalDocs": {"url": "https://docs.srv.test/x"}})
+    elif deco == "op_misc":
+        node.update({"servers": [{"url": "https://alt.srv.test"}], "security": []})
+        node.setdefault("parameters", [])
+    else:
+        raise core.MachineryError(f"unknown decoration {deco}")
+
+
 def document(doc: dict) -> dict:
     paths: dict[str, Any] = {}
     for op in doc["ops"]:
-        paths.setdefault(op["path"], {})[op["method"].lower()] = operation_node(op)
-    return {"openapi": "3.0.3", "info": {"title": "Surface", "version": "1.0.0"}, "paths": paths, "components": {"schemas": copy.deepcopy(COMPONENTS)}}
+        item = paths.setdefault(op["path"], {})
+        node = operation_node(op)
+        for deco in op.get("decos", []):
+            decorate(node, item, op, deco)
+        item[op["method"].lower()] = node
+    return {"openapi": "3.0.3", "info": {"title": "Surface", "version": "1.0.0"}, "paths": paths, "components": {"schemas": copy.deepcopy(COMPONENTS), **copy.deepcopy(SHARED)}}
 
 
 def _scalar(v: Any) -> str:
@@ -530,7 +582,7 @@ def brief_client(c: dict) -> dict:
 
 
 def brief_doc(doc: dict) -> dict:
-    return {"id": doc["id"], "strategy": doc["strategy"], "rendering": doc["rendering"], "ops": [{k: op[k] for k in ("oid", "method", "path", "tags", "keys", "opid", "idshape", "kind")} for op in doc["ops"]]}
+    return {"id": doc["id"], "strategy": doc["strategy"], "rendering": doc["rendering"], "ops": [{k: op[k] for k in ("oid", "method", "path", "tags", "keys", "opid", "idshape", "kind", "decos") if k in op} for op in doc["ops"]]}
 
 
 def observe_docs(chk: Check, docs: list[dict], label: str) -> tuple[list[dict], dict[str, Any]]:
@@ -831,7 +883,10 @@ def rule_text(tier: str) -> str:
         "operations with an orthogonal array over tag lists; E every id shape x strategy x 5 tag patterns; F every pair (thorough: triple) of "
         "kinds; G a slice rendered with bare status keys; H multi-tag x colliding ids; P spellings of one tag that differ by punctuation "
         "other than space / hyphen / underscore (Billing/Invoices vs billing-invoices, v1.users, R&D, ops:admin) alone, in every ordered pair "
-        "and in triples; V one path item carrying all eight OpenAPI 3 verbs.  Every document is generated on the force path (the only path that writes output) "
+        "and in triples; V one path item carrying all eight OpenAPI 3 verbs; X one unusual-but-valid construct per document on one / all "
+        "operations (responses keyed default only, 4XX/5XX, 4xx, 2XX, several statuses, 204, description only, $ref to components.responses, "
+        "200 + default; parameters / requestBody by $ref; path-level parameters, summary, description, servers; x- extensions, deprecated, "
+        "externalDocs; operation-level servers / security / empty lists), pairs in thorough.  Every document is generated on the force path (the only path that writes output) "
         "and observed once; non-trivial = judged document with >= 2 (operation, tag class) pairs (C07) / with mock methods compared (C13)"
     )
 
